@@ -16,7 +16,7 @@ META = dict(
     technique="exhaustive enumeration of every single-pixel pattern / every Fourier mode on small grids x layouts x units; closed-form reference",
     text="For 4 pattern shapes (odd/even mixes), 2 samplings, both layouts and both units, the centre of mass of every single-pixel pattern (two "
          "intensities) and of seeded patterns, for three ensemble shapes and lazy/eager, is compared with the intensity-weighted mean frequency; "
-         "the gradient of every non-constant band-limited Fourier mode of two grids is integrated and compared with the generating field. Lazy gradient images are cut into 1 or 2 dask blocks per image axis in every way and into 3 blocks along y.",
+         "every sequence of up to 2 (thorough: 3) requests out of 7 (centre of mass in either unit, coordinates, angular coordinates, limits, angular limits, axes metadata) is issued on ONE object before a final centre of mass, which must equal the fresh answer; the gradient of every non-constant band-limited Fourier mode of two grids is integrated and compared with the generating field. Lazy gradient images are cut into 1 or 2 dask blocks per image axis in every way and into 3 blocks along y.",
     note="Bound: patterns <= 8x7, grids <= 9x8. Tolerance 1e-5 relative (float32). Normalisation by the total intensity is part of the statement "
          "('intensity-weighted mean').",
 )
@@ -31,6 +31,9 @@ def check(ctx):
         if ctx.quick and lazy and ens != "scan":
             continue
         cases.append({"kind": "com", "shape": sh, "samp": sa, "shift": shift, "units": units, "ens": ens, "lazy": lazy})
+    depth = 2 if ctx.quick else 3
+    for sh, shift in itertools.product(range(len(SHAPES)), (True, False)):
+        cases.append({"kind": "requests", "shape": sh, "samp": 1, "shift": shift, "depth": depth})
     for g, lazy in itertools.product(range(2), (False, True)):
         cases.append({"kind": "grad", "g": g, "lazy": lazy})
     ctx.run(cases, "run_case", rule="com: per (shape, sampling, layout, units, ensemble, lazy) every single-pixel pattern x 2 intensities + 2 seeded patterns; "
@@ -56,6 +59,53 @@ def run_case(c):
         if sum(1 for v in viol if v["key"] == key) < 2:
             viol.append({"key": key, "msg": "%s (%s)" % (msg, c)})
 
+    if c["kind"] == "requests":
+        # ONE DiffractionPatterns object is asked several things in a row (every sequence of <= depth requests out of 7, then a centre of
+        # mass in either unit): the answer must be what a fresh object gives
+        n, m = SHAPES[c["shape"]]
+        sx, sy = SAMPLINGS[c["samp"]]
+        E = 100e3
+        lam = wavelength(E)
+        kx = np.fft.fftfreq(n) * n * sx
+        ky = np.fft.fftfreq(m) * m * sy
+        if c["shift"]:
+            kx, ky = np.fft.fftshift(kx), np.fft.fftshift(ky)
+        p = np.zeros((n, m), np.float32)
+        p[1, m - 2] = 2.0
+        p[n - 1, 0] = 0.5
+        p[2, 1] = 1.25
+        p64 = p.astype(np.float64)
+        want1 = ((p64 * kx[:, None]).sum() + 1j * (p64 * ky[None]).sum()) / p64.sum()
+        REQ = {
+            "com_A": lambda d: d.center_of_mass(units="1/Å"),
+            "com_mrad": lambda d: d.center_of_mass(units="mrad"),
+            "angular_coordinates": lambda d: d.angular_coordinates,
+            "coordinates": lambda d: d.coordinates,
+            "angular_limits": lambda d: d.angular_limits,
+            "limits": lambda d: d.limits,
+            "axes_metadata": lambda d: d.axes_metadata,
+        }
+        names = list(REQ)
+        nseq = 0
+        for L in range(0, c["depth"] + 1):
+            for seq in itertools.product(names, repeat=L):
+                for last, scale in (("com_A", 1.0), ("com_mrad", lam * 1e3)):
+                    dp = DiffractionPatterns(p.copy(), sampling=(sx, sy), fftshift=c["shift"], metadata={"energy": E})
+                    for r_ in seq:
+                        REQ[r_](dp)
+                    out = REQ[last](dp)
+                    got = complex(np.asarray(out.array if hasattr(out, "array") else out).ravel()[0])
+                    tr += 1 + L
+                    nseq += 1
+                    e = abs(got - want1 * scale) / (max(abs(kx).max(), abs(ky).max()) * scale)
+                    worst = max(worst, e / 1e-5)
+                    if not e <= 1e-5:
+                        bad("com/after-earlier-requests", "%s after the requests %r on the same object gives %r, intensity-weighted mean %r" % (last, list(seq), got, want1 * scale))
+                    lim = dp.limits
+                    wl = [(float(kx.min()), float(kx.max())), (float(ky.min()), float(ky.max()))]
+                    if not np.allclose(np.array(lim, float), np.array(wl), rtol=1e-6, atol=1e-9):
+                        bad("limits/after-earlier-requests", "limits after %r + %s are %r, expected %r" % (list(seq), last, lim, wl))
+        return {"viol": viol, "obs": "%d request sequences" % nseq, "tr": tr, "ref": nseq, "err": worst}
     if c["kind"] == "com":
         n, m = SHAPES[c["shape"]]
         sx, sy = SAMPLINGS[c["samp"]]  # reciprocal-space sampling of the pattern [1/A]
